@@ -1,12 +1,20 @@
 import ExoVerif.Driver.Common
 import ExoVerif.Model.Genesis
 import ExoVerif.Model.GenesisAssets
+import ExoVerif.Model.GenesisOperator
+import ExoVerif.Model.GenesisMods
 /- driver for the C18 correspondence: the harness describes the cross-module core of the real state before the
    export (`gen.und`, `gen.q`, `gen.cur`, `gen.prev`, `gen.rev`, `gen.val`), `gen.roundtrip` prints what the model says the
    re-imported chain holds (undelegations with hold counts, dogfood queues, reverse key lookups, validator set).
    x/assets: the four prefix stores read raw before the export (`gen.ap` params, `gen.ac` chain, `gen.at` token, `gen.ad`
    staker row, `gen.ao` operator pool row — each with its store key); `gen.assets` prints the verdict of
-   validateAssets on exportAssets and the stores initAssets rebuilds from it. -/
+   validateAssets on exportAssets and the stores initAssets rebuilds from it.
+   x/operator: `gen.oo` operator info (address, earnings address), `gen.ok` one chain of a key record, `gen.os` opted state,
+   `gen.ou` (AVS, operator) USD value, `gen.oa` AVS USD value, each in store order; `gen.operator` prints the verdict of
+   validateOperator on exportOperator and the operator infos / USD values initOperator rebuilds.
+   x/exomint, x/feedistribution: `gen.ep` the epoch identifiers x/epochs holds, `gen.mp` / `gen.dp` the params;
+   `gen.params` prints the params initMint / initDistr leave after exportMint / exportDistr (`init=panic` when the epoch
+   identifier is unknown). -/
 namespace ExoVerif.Driver.Genesis
 open ExoVerif.Genesis ExoVerif.Driver
 
@@ -47,31 +55,78 @@ def assetsRoundtrip (a : Assets) : String :=
   | none => s!"validate={v} init=panic"
   | some a' => s!"validate={v} init=ok " ++ showAssets (showName a')
 
-def step (st : Core × Assets) (w : List String) : (Core × Assets) × String :=
-  let s := st.1
-  let a := st.2
+def emptyOperator : OperatorMod := { operators := [], keys := [], optStates := [], usd := [], avsUsd := [] }
+
+def showOperator (o : OperatorMod) : String :=
+  let os := o.operators.map (fun p => s!"{p.1}:{if p.2 == "" then "-" else p.2}")
+  let us := o.usd.map (fun p => s!"{p.2.avs}:{p.2.operator}:{p.2.self}:{p.2.total}:{p.2.active}")
+  let as := o.avsUsd.map (fun p => s!"{p.1}:{p.2}")
+  "ops=[" ++ joinWith "," os ++ "] usd=[" ++ joinWith "," us ++ "] avs=[" ++ joinWith "," as ++ "]"
+
+def operatorRoundtrip (o : OperatorMod) : String :=
+  let d := exportOperator o
+  let v := if validateOperator d then "true" else "false"
+  match initOperator d with
+  | none => s!"validate={v} init=panic"
+  | some o' => s!"validate={v} " ++ showOperator o'
+
+structure Mods where
+  epochs : List String
+  mint : MintParams
+  distr : DistrParams
+deriving Inhabited
+
+def emptyMods : Mods := ⟨[], ⟨"-", 0, "-"⟩, ⟨"-", 0⟩⟩
+
+def paramsRoundtrip (m : Mods) : String :=
+  match initMint m.epochs (exportMint m.mint), initDistr m.epochs (exportDistr ⟨m.distr, [], [], [], [], []⟩) with
+  | some mp, some d => s!"init=ok mint={mp.mintDenom}:{mp.epochReward}:{mp.epochIdentifier} distr={d.params.epochIdentifier}:{d.params.communityTax}"
+  | _, _ => "init=panic"
+
+structure St where
+  core : Core
+  assets : Assets
+  operator : OperatorMod
+  mods : Mods
+
+def step (st : St) (w : List String) : St × String :=
+  let s := st.core
+  let a := st.assets
+  let o := st.operator
   match w with
-  | ["gen.reset"] => ((empty, emptyAssets), "ok")
-  | ["gen.und", id, c, am, h] => (({ s with unds := s.unds ++ [⟨id, parseInt! c, parseInt! am, parseInt! h⟩] }, a), "ok")
-  | ["gen.q", p, e, it] => (({ s with queues := s.queues ++ [⟨parseNat! p, parseInt! e, it, []⟩] }, a), "ok")
-  | ["gen.q", p, e, it, recs] => (({ s with queues := s.queues ++ [⟨parseNat! p, parseInt! e, it, recs.splitOn "+"⟩] }, a), "ok")
-  | ["gen.cur", op, cons] => (({ s with curKeys := s.curKeys ++ [(op, cons)] }, a), "ok")
-  | ["gen.prev", op, cons] => (({ s with prevKeys := s.prevKeys ++ [(op, cons)] }, a), "ok")
-  | ["gen.val", cons, pw] => (({ s with vals := s.vals ++ [(cons, parseInt! pw)] }, a), "ok")
-  | ["gen.rev", cons, op] => (({ s with reverse := s.reverse ++ [(cons, op)] }, a), "ok")
+  | ["gen.reset"] => (⟨empty, emptyAssets, emptyOperator, emptyMods⟩, "ok")
+  | ["gen.und", id, c, am, h] => ({ st with core := { s with unds := s.unds ++ [⟨id, parseInt! c, parseInt! am, parseInt! h⟩] } }, "ok")
+  | ["gen.q", p, e, it] => ({ st with core := { s with queues := s.queues ++ [⟨parseNat! p, parseInt! e, it, []⟩] } }, "ok")
+  | ["gen.q", p, e, it, recs] => ({ st with core := { s with queues := s.queues ++ [⟨parseNat! p, parseInt! e, it, recs.splitOn "+"⟩] } }, "ok")
+  | ["gen.cur", op, cons] => ({ st with core := { s with curKeys := s.curKeys ++ [(op, cons)] } }, "ok")
+  | ["gen.prev", op, cons] => ({ st with core := { s with prevKeys := s.prevKeys ++ [(op, cons)] } }, "ok")
+  | ["gen.val", cons, pw] => ({ st with core := { s with vals := s.vals ++ [(cons, parseInt! pw)] } }, "ok")
+  | ["gen.rev", cons, op] => ({ st with core := { s with reverse := s.reverse ++ [(cons, op)] } }, "ok")
   | ["gen.roundtrip"] => (st, showCore (roundtrip codePrefixes 0 0 s))
-  | ["gen.ap", gw, topic] => ((s, { a with params := ⟨gw, topic⟩ }), "ok")
+  | ["gen.ap", gw, topic] => ({ st with assets := { a with params := ⟨gw, topic⟩ } }, "ok")
   | ["gen.ac", k, lz, nm, al, rest] =>
-    ((s, { a with chains := a.chains ++ [(k, ⟨parseNat! lz, nameOf nm, parseNat! al, rest⟩)] }), "ok")
+    ({ st with assets := { a with chains := a.chains ++ [(k, ⟨parseNat! lz, nameOf nm, parseNat! al, rest⟩)] } }, "ok")
   | ["gen.at", k, lz, addr, dec, tot, rest] =>
-    ((s, { a with tokens := a.tokens ++ [(k, ⟨parseNat! lz, addr, parseNat! dec, rest, parseInt! tot⟩)] }), "ok")
+    ({ st with assets := { a with tokens := a.tokens ++ [(k, ⟨parseNat! lz, addr, parseNat! dec, rest, parseInt! tot⟩)] } }, "ok")
   | ["gen.ad", k, sk, asset, t, wd, p] =>
-    ((s, { a with deposits := a.deposits ++ [(k, ⟨sk, asset, parseInt! t, parseInt! wd, parseInt! p⟩)] }), "ok")
-  | ["gen.ao", k, o, asset, t, p, ts, os] =>
-    ((s, { a with opAssets := a.opAssets ++ [(k, ⟨o, asset, parseInt! t, parseInt! p, parseInt! ts, parseInt! os⟩)] }), "ok")
+    ({ st with assets := { a with deposits := a.deposits ++ [(k, ⟨sk, asset, parseInt! t, parseInt! wd, parseInt! p⟩)] } }, "ok")
+  | ["gen.ao", k, op, asset, t, p, ts, os] =>
+    ({ st with assets := { a with opAssets := a.opAssets ++ [(k, ⟨op, asset, parseInt! t, parseInt! p, parseInt! ts, parseInt! os⟩)] } }, "ok")
   | ["gen.assets"] => (st, assetsRoundtrip a)
+  | ["gen.oo", addr, earn] => ({ st with operator := { o with operators := o.operators ++ [(addr, if earn == "-" then "" else earn)] } }, "ok")
+  | ["gen.ok", op, chain, cons] => ({ st with operator := { o with keys := o.keys ++ [(op, chain, cons)] } }, "ok")
+  | ["gen.os", op, avs, i, u] =>
+    ({ st with operator := { o with optStates := o.optStates ++ [(joinKey op avs, ⟨op, avs, parseNat! i, parseNat! u⟩)] } }, "ok")
+  | ["gen.ou", avs, op, sf, t, ac] =>
+    ({ st with operator := { o with usd := o.usd ++ [(joinKey avs op, ⟨avs, op, parseInt! sf, parseInt! t, parseInt! ac⟩)] } }, "ok")
+  | ["gen.oa", avs, am] => ({ st with operator := { o with avsUsd := o.avsUsd ++ [(avs, parseInt! am)] } }, "ok")
+  | ["gen.operator"] => (st, operatorRoundtrip o)
+  | "gen.ep" :: ids => ({ st with mods := { st.mods with epochs := ids } }, "ok")
+  | ["gen.mp", denom, reward, ep] => ({ st with mods := { st.mods with mint := ⟨denom, parseInt! reward, ep⟩ } }, "ok")
+  | ["gen.dp", ep, tax] => ({ st with mods := { st.mods with distr := ⟨ep, parseInt! tax⟩ } }, "ok")
+  | ["gen.params"] => (st, paramsRoundtrip st.mods)
   | _ => (st, "bad-op")
 
-def main : IO Unit := runDriver (empty, emptyAssets) step
+def main : IO Unit := runDriver (⟨empty, emptyAssets, emptyOperator, emptyMods⟩ : St) step
 
 end ExoVerif.Driver.Genesis
